@@ -112,7 +112,17 @@ def learned_range(case, X, y):
     if case["range"] == "bigger":
         return lo - 0.25 * ext, hi + 0.5 * ext
     if case["range"] == "cut":
-        return lo + 0.03 * ext, hi - 0.02 * ext
+        # cut a few samples off, but keep every labelled sample clearly (>= 5e-4 of the extent) away from the box faces: the code accepts
+        # positions up to 1e-4 of the box extent beyond the faces, the oracle must not depend on that band
+        clo, chi = lo.copy(), hi.copy()
+        for j in range(len(lo)):
+            v = np.unique(L[:, j])
+            mids = [(a + b) / 2 for a, b in zip(v[:-1], v[1:]) if b - a >= 1e-3 * ext[j]]
+            lo_c = [m_ for m_ in mids if m_ <= lo[j] + 0.2 * ext[j]]
+            hi_c = [m_ for m_ in mids if m_ >= hi[j] - 0.2 * ext[j]]
+            clo[j] = min(lo_c, key=lambda m_: abs(m_ - (lo[j] + 0.03 * ext[j]))) if lo_c else lo[j] - 0.1 * ext[j]
+            chi[j] = min(hi_c, key=lambda m_: abs(m_ - (hi[j] - 0.02 * ext[j]))) if hi_c else hi[j] + 0.1 * ext[j]
+        return clo, chi
     return lo, hi
 
 
